@@ -180,6 +180,9 @@ def predict(state, sub, op):
                 m.state = HO
     elif k in ("offline", "local", "remote"):
         m.operator(k)
+    elif k == "flips":
+        for what in op["seq"]:
+            m.operator(what)
     elif k == "s1f15":
         m.s1f15()
     elif k == "s1f17":
@@ -209,6 +212,15 @@ def case_strategy(draw, cfg, max_ops):
             k = draw(st.sampled_from(moving_ops(state)))
         else:
             k = draw(st.sampled_from(["online", "offline", "local", "remote", "s1f15", "s1f17", "s1f3", "s2f37"]))
+        if state in (OL, OR) and draw(st.integers(0, 9)) == 0:
+            # the operator flips the LOCAL/REMOTE switch several times in a row while the host has not yet acknowledged the
+            # event reports of the earlier flips (it answers them all afterwards): every transition taken is reported
+            first = "remote" if state == OL else "local"
+            other = "local" if first == "remote" else "remote"
+            nf = draw(st.integers(2, 5))
+            ops.append({"op": "flips", "seq": [first if j % 2 == 0 else other for j in range(nf)]})
+            state, sub = predict(state, sub, ops[-1])
+            continue
         op = {"op": k}
         if k == "online":
             op["probe"] = cfg["probe"] if draw(st.integers(0, 3)) < 3 else draw(st.sampled_from(PROBES))
@@ -437,6 +449,33 @@ def run_case(case, observe=None, tolerate=()):
                 return fail(f"{tag}@{sb}:unexpected-message-S{other[0]['stream']}F{other[0]['function']}", i, [(o["stream"], o["function"]) for o in other], "no message but the S6F11 of the transition")
             return None
 
+        def do_flips(seq, i):
+            """Several operator LOCAL/REMOTE switches in a row; the host acknowledges the S6F11 of all of them only afterwards."""
+            sb = m.state
+            if sb not in ONLINE_STATES:
+                return None
+            expected = []
+            for what in seq:
+                t, box = operator_call(what)
+                if t.state != "DONE":
+                    return fail(f"operator-flips@{sb}:operator-call-blocks", i, sim.blocked_report(), "call returns (event reports do not hold up the operator)")
+                s0 = m.state
+                allowed, exp = m.operator(what)
+                expected.extend(exp)
+                if allowed:
+                    stats["trans"].add(f"{what}@{s0}")
+            stats["flips"] = stats.get("flips", 0) + 1
+            evs, other = answer_events()
+            r = real()
+            if r != m.state:
+                return fail(f"operator-flips@{sb}:state-{r}-instead-of-{m.state}", i, r, m.state)
+            f = check_events("operator-flips", sb, i, evs, expected, check_values=False)
+            if f:
+                return f
+            if other:
+                return fail(f"operator-flips@{sb}:unexpected-message-S{other[0]['stream']}F{other[0]['function']}", i, [(o["stream"], o["function"]) for o in other], "no message but the S6F11 of the transitions")
+            return None
+
         def do_host(k, tag, i):
             sb = m.state
             if k == "s1f15":
@@ -564,6 +603,8 @@ def run_case(case, observe=None, tolerate=()):
                 return do_operator("online", "operator-online", i)
             if k in ("offline", "local", "remote"):
                 return do_operator(k, "operator-" + k, i)
+            if k == "flips":
+                return do_flips(op["seq"], i)
             if k in ("s1f15", "s1f17"):
                 return do_host(k, "host-" + k.upper(), i)
             if k == "s1f3":
@@ -672,6 +713,8 @@ def _classes(case, obs):
         cls.append("remembered-substate-cycle")
     if obs.get("refused"):
         cls.append("not-allowed-operator-request")
+    if obs.get("flips"):
+        cls.append("operator-flips-with-unacknowledged-reports")
     if obs.get("during"):
         cls.append("request-while-ATTEMPT_ONLINE")
     if obs.get("queued"):
